@@ -340,6 +340,41 @@ def run_exe(exe, lines, timeout=600, shards=NPROC, env=None):
             out.update(r)
     return out
 
+
+# ----------------------------------------------------------------------------- source baseline
+
+COMMON_SRC = ["src/lib.rs", "src/utils.rs", "src/datatype.rs", "src/formats.rs"]
+
+def changed_sources(prop):
+    """files named in the property's anchors (plus the shared ones) whose content in the tree under
+    check differs from tools/source_baseline.json (= /repo's HEAD when the models were last
+    synchronised).  A difference is not an alarm: it makes ./check run the extended search too."""
+    bp = os.path.join(ROOT, "tools", "source_baseline.json")
+    if not os.path.exists(bp):
+        return []
+    base = json.load(open(bp)).get("files", {})
+    repo = os.environ.get("VERIF_REPO", REPO)
+    files = list(COMMON_SRC)
+    for l in open(os.path.join(ROOT, "properties.jsonl")):
+        d = json.loads(l)
+        if d["id"] == prop:
+            files += d.get("anchors", {}).get("files", [])
+    out = []
+    for f in sorted(set(files)):
+        try:
+            h = hashlib.sha1(open(os.path.join(repo, f), "rb").read()).hexdigest()
+        except OSError:
+            h = "missing"
+        if f in base and base[f] != h:
+            out.append(f)
+    # a file that moved or a new module: anything under src/ that the baseline does not know
+    for dp, _, fs in os.walk(os.path.join(repo, "src")):
+        for fn in fs:
+            rel = os.path.relpath(os.path.join(dp, fn), repo)
+            if fn.endswith(".rs") and rel not in base:
+                out.append(rel)
+    return out
+
 # ----------------------------------------------------------------------------- known findings
 
 def load_known():
